@@ -133,7 +133,7 @@ def nonce_nat(s):
 
 
 class Translator:
-    cancel_enc_fail = False   # set once Model/Transport has Act.cCancelEncFail
+    cancel_enc_fail = True    # was gated until Model/Transport has Act.cCancelEncFail
     sizes = True    # was gated until Model/Replay understands the `sizes` item and `?rec`
 
     def __init__(self, lines):
